@@ -120,6 +120,12 @@ Definition starts_with_operator (j : nat) : bool := Nat.eqb j T_expr_neg.
 Definition k_c16 (i j : nat) : bool :=
   is_let i || is_let j || (ends_with_assignment i && starts_with_operator j).
 
+(* C16: an anonymous block `{ ... }` that is the last statement of a block body is left as a bare
+   BLOCK_EXPR (rust-analyzer's tail expression), not wrapped in EXPR_STMT *)
+Definition is_anon_block (j : nat) : bool :=
+  existsb (Nat.eqb j) [T_anon_block; T_anon_block_empty; T_anon_block_nested].
+Definition k_c16_block (i j : nat) : bool := k_c16 i j || is_anon_block j.
+
 Definition ids : list nat := seq 0 (List.length templates).
 Definition id_pairs : list (nat * nat) := flat_map (fun i => map (fun j => (i, j)) ids) ids.
 Definition ctx_ids : list nat := seq 0 n_contexts.
